@@ -141,6 +141,7 @@ def _printer_fixes(src):
                 if isinstance(f, ast.FunctionDef) and f.name in ('_arg_format', '_netmake1', '_netsubs'):
                     funcs[f.name] = f
     fix_e = fix_a = fix_b = False
+    braces_eq = False
     notes = []
     af = funcs.get('_arg_format')
     if af is None:
@@ -157,6 +158,8 @@ def _printer_fixes(src):
                 if ("string == ''" in test and "in '{\"'" in test and "'=' in string" in test
                         and body.strip() == "return '{' + string + '}'"):
                     braces_bracket_start = True
+                if test.strip() == "'=' in string" and body.strip() == "return '{' + string + '}'":
+                    braces_eq = True
                 if '.keywords(self.type)' in test and 'string.lower()' in test and body.strip() == "return '{' + string + '}'":
                     fix_a = True
         fix_e = braces_bracket_start and not returns_unchanged_if_brace
@@ -192,7 +195,7 @@ def _printer_fixes(src):
             deleg = False
         else:
             notes.append('_netsubs: unrecognised shape: ' + '; '.join(calls)[:80])
-    return (fix_e, fix_a, fix_b, deleg), notes
+    return (fix_e, fix_a, fix_b, deleg, braces_eq), notes
 
 
 def lchar(c):
@@ -252,7 +255,7 @@ def generate(repo):
             unparsed.append('rule-line:' + line[:40])
     msrc = open(os.path.join(repo, 'lcapy', 'mnacpts.py')).read()
     fixes4, fnotes = _printer_fixes(msrc)
-    fixes, netsubs_deleg = fixes4[:3], fixes4[3]
+    fixes, netsubs_deleg, braces_eq = fixes4[:3], fixes4[3], fixes4[4]
     osrc = open(os.path.join(repo, 'lcapy', 'opts.py')).read()
     oc, onotes = _opts_consts(osrc)
     aliases, anotes = _suffix_aliases(vsrc)
@@ -301,6 +304,9 @@ def generate(repo):
     L.append('/-- mnacpts.Cpt._arg_format / _netmake1: which repairs (C06-e, C06-a, C06-b) the source contains -/')
     L.append('def printerFix : Bool × Bool × Bool := (%s, %s, %s)' % tuple('true' if x else 'false' for x in fixes))
     L.append('')
+    L.append('/-- mnacpts.Cpt._arg_format: is a value that contains `=` (and does not start with a brace) enclosed in braces -/')
+    L.append('def printerBracesEquals : Bool := %s' % ('true' if braces_eq else 'false'))
+    L.append('')
     L.append('/-- mnacpts.Cpt._netsubs: does it print through _netmake1 (else: its own legacy loop) -/')
     L.append('def netsubsDelegates : Bool := %s' % ('true' if netsubs_deleg else 'false'))
     L.append('')
@@ -308,7 +314,7 @@ def generate(repo):
     text = '\n'.join(L) + '\n'
     info = {'rules': len(rules), 'params': len(params), 'suffixes': len(suff), 'unparsed': unparsed,
             'rule_classes': [r[0] for r in rules], 'printer_fixes': {'C06-e': fixes[0], 'C06-a': fixes[1], 'C06-b': fixes[2]},
-            'netsubs_delegates': netsubs_deleg, 'printer_notes': fnotes, 'opts_constants': oc, 'suffix_aliases': aliases, 'opts_notes': onotes + anotes}
+            'netsubs_delegates': netsubs_deleg, 'printer_braces_equals': braces_eq, 'printer_notes': fnotes, 'opts_constants': oc, 'suffix_aliases': aliases, 'opts_notes': onotes + anotes}
     return text, info
 
 
